@@ -61,6 +61,8 @@ type Job struct {
 	Values []drive.ValueScenario `json:"values"`
 	// Mode "set"
 	Sets []drive.SetScenario `json:"sets"`
+	// Mode "timercatch"
+	TimerCatch []drive.TimerCatchBehaviour `json:"timercatch"`
 	// Mode "timer"
 	TimerDefs []drive.TimerDef      `json:"timer_defs"`
 	Timer     []drive.TimerSchedule `json:"timer"`
@@ -171,6 +173,9 @@ func WorkerMain(args []string) int {
 		} else if job.Opts.Mode == "set" {
 			sl := drive.SetRun(i, job.Sets[i], job.Opts.driveOpts().T)
 			line, _ = json.Marshal(RunLog{Run: i, Log: []drive.Rec{}, SLog: sl})
+		} else if job.Opts.Mode == "timercatch" {
+			vr := drive.TimerCatchRun(i, job.TimerCatch[i], job.Opts.driveOpts().T)
+			line, _ = json.Marshal(RunLog{Run: i, Log: []drive.Rec{}, VRes: &vr})
 		} else if job.Opts.Mode == "timer" {
 			tm := drive.TimerRun(i, job.TimerDefs, job.Timer[i], job.Opts.driveOpts().T)
 			line, _ = json.Marshal(RunLog{Run: i, Log: []drive.Rec{}, TmLog: tm})
